@@ -22,7 +22,8 @@ impl LintPass for OverlappingFunctionCheck {
             //       This is done to not overwhelm the user with errors.
             if node.functions().len() > 1 && node.is_function_entry_with_func().is_some() {
                 // HACK: Create a dummy label with the same name
-                let labels = node.labels();
+                let mut labels = node.labels().into_iter().collect::<Vec<_>>();
+                labels.sort();
                 let labels = labels
                     .iter()
                     .map(|l| Label {
@@ -36,7 +37,11 @@ impl LintPass for OverlappingFunctionCheck {
                 if let Some(l) = label {
                     errors.push(LintError::NodeInManyFunctions(
                         ParserNode::Label(l.clone()),
-                        node.functions().clone().into_iter().collect::<Vec<_>>(),
+                        {
+                            let mut funcs = node.functions().clone().into_iter().collect::<Vec<_>>();
+                            funcs.sort_by_key(|f| f.name());
+                            funcs
+                        },
                     ));
                 }
             }
